@@ -697,8 +697,12 @@ class GriffeLoader:
                     raise UnimportableModuleError(f"Skip {subpath}, it is not importable") from error
             else:
                 parent_namespace = parent_module.is_namespace_package or parent_module.is_namespace_subpackage
-                if parent_namespace and module_filepath not in parent_module.filepath:  # type: ignore[operator]
-                    parent_module.filepath.append(module_filepath)  # type: ignore[union-attr]
+                if parent_namespace:
+                    if module_filepath not in parent_module.filepath:  # type: ignore[operator]
+                        parent_module.filepath.append(module_filepath)  # type: ignore[union-attr]
+                elif isinstance(parent_module, Module) and not parent_module.is_init_module:
+                    # A regular module (not a package) cannot have submodules.
+                    raise UnimportableModuleError(f"Skip {subpath}, it is not importable")
         return parent_module
 
     def _expand_wildcard(self, wildcard_obj: Alias) -> list[tuple[Object | Alias, int | None, int | None]]:
